@@ -290,14 +290,21 @@ func VH_C10_promise_chain() {
 	if extra {
 		c1b = c1.AddRef()
 	}
-	p1.Fulfill(c2) // c2 is not resolved yet
-	vReach("outer-fulfilled")
-	vAssert(vLocksHeld() == 0, "C10.chain.fulfill.no-lock-held")
-	vAssert(c1.IsValid() && c1.State().IsPromise, "C10.chain.outer-handle-follows-to-the-inner-promise")
-	c1.SendCall(context.Background(), Send{})
-	vAssert(ph2.sends == 1 && ph1.sends == 0, "C10.chain.calls-reach-the-inner-promise")
 	target := NewClient(th)
-	p2.Fulfill(target)
+	if vConc(int(vNondetU8()), 2) == 1 {
+		// the inner promise is resolved first and not used before the outer one is fulfilled with it
+		p2.Fulfill(target)
+		p1.Fulfill(c2)
+		vReach("inner-first")
+	} else {
+		p1.Fulfill(c2) // c2 is not resolved yet
+		vReach("outer-fulfilled")
+		vAssert(vLocksHeld() == 0, "C10.chain.fulfill.no-lock-held")
+		vAssert(c1.IsValid() && c1.State().IsPromise, "C10.chain.outer-handle-follows-to-the-inner-promise")
+		c1.SendCall(context.Background(), Send{})
+		vAssert(ph2.sends == 1 && ph1.sends == 0, "C10.chain.calls-reach-the-inner-promise")
+		p2.Fulfill(target)
+	}
 	vReach("inner-fulfilled")
 	c1.SendCall(context.Background(), Send{})
 	vAssert(th.sends == 1, "C10.chain.calls-reach-the-final-capability")
